@@ -264,6 +264,9 @@ func hmacKeyOf(p string) [64]byte {
 
 func scryptEquivalent(a, b string) bool { return hmacKeyOf(a) == hmacKeyOf(b) }
 
+// ScryptEquivalent reports whether PBKDF2-HMAC-SHA256 (inside scrypt) maps both passwords to one key.
+func ScryptEquivalent(a, b string) bool { return scryptEquivalent(a, b) }
+
 // AuxBytes gives concrete auxiliary data for a model aux value.
 func AuxBytes(aux string, seed int64) []byte {
 	if aux == "none" {
